@@ -122,7 +122,10 @@ def impl_ip_init(s, version, flags):
     arg = s
     if zlib.crc32(s.encode("latin-1", "replace")) % 4 == 0:
         arg = _Text(s)          # same text, handed over as a str-subclass instance (chosen from the content)
-    a = netaddr.IPAddress(arg, version, flags)
+    if flags == 0:     # arguments that have their documented default value are left out, so the defaults are exercised
+        a = netaddr.IPAddress(arg) if version is None else netaddr.IPAddress(arg, version)
+    else:
+        a = netaddr.IPAddress(arg, version, flags)
     return [a.version, int(a)]
 
 
